@@ -56,45 +56,56 @@ func ItemsEqual(it, with Item) bool {
 			return nil
 		})
 	} else if IsObject(it) {
-		_ = OnObject(it, func(i *Object) error {
-			result = i.Equals(with)
-			return nil
-		})
+		// the comparison of the more specific type includes the one of the object part: running both
+		// doubled the work at every level of nesting
+		compared := false
 		if ActivityTypes.Contains(with.GetType()) {
 			_ = OnActivity(it, func(i *Activity) error {
 				result = i.Equals(with)
+				compared = true
 				return nil
 			})
 		} else if ActorTypes.Contains(with.GetType()) {
 			_ = OnActor(it, func(i *Actor) error {
 				result = i.Equals(with)
+				compared = true
 				return nil
 			})
 		} else if it.IsCollection() {
 			if it.GetType() == CollectionType {
 				_ = OnCollection(it, func(c *Collection) error {
 					result = c.Equals(with)
+					compared = true
 					return nil
 				})
 			}
 			if it.GetType() == OrderedCollectionType {
 				_ = OnOrderedCollection(it, func(c *OrderedCollection) error {
 					result = c.Equals(with)
+					compared = true
 					return nil
 				})
 			}
 			if it.GetType() == CollectionPageType {
 				_ = OnCollectionPage(it, func(c *CollectionPage) error {
 					result = c.Equals(with)
+					compared = true
 					return nil
 				})
 			}
 			if it.GetType() == OrderedCollectionPageType {
 				_ = OnOrderedCollectionPage(it, func(c *OrderedCollectionPage) error {
 					result = c.Equals(with)
+					compared = true
 					return nil
 				})
 			}
+		}
+		if !compared {
+			_ = OnObject(it, func(i *Object) error {
+				result = i.Equals(with)
+				return nil
+			})
 		}
 	} else if IsLink(it) {
 		_ = OnLink(it, func(l *Link) error {
